@@ -559,7 +559,30 @@ def bespoke_verdict(desc):
         vm = desc["level"] * (1.0 - desc["spread"] * rng.uniform(0.0, 1.0, size=(ne, ncol)))
         out.label("ks-level=%s" % ("<0.1" if desc["level"] < 2e7 else ("~1" if desc["level"] < 2e9 else ">10")) + "*yield")
         out.label("ks-rho=%g" % desc["rho"])
-        n = _judge_alone(out, FailureKS(surface=surf, rho=desc["rho"]), {"vonmises": vm}, rng, min(eps, 1e-3), "FailureKS")
+        # exact reference: failure = KS_rho(vm/yield - 1), so d failure/d vm_i = softmax_i(rho (vm/yield - 1)) / yield
+        pk = om.Problem(reports=False)
+        ivk = om.IndepVarComp()
+        ivk.add_output("vonmises", val=vm, units="N/m**2")
+        pk.model.add_subsystem("iv", ivk, promotes=["*"])
+        pk.model.add_subsystem("c", FailureKS(surface=surf, rho=desc["rho"]), promotes=["*"])
+        pk.setup()
+        pk.run_model()
+        Jk = np.array(pk.compute_totals(of=["failure"], wrt=["vonmises"])["failure", "vonmises"], float).ravel()
+        g = desc["rho"] * (vm / surf["yield"] - 1.0)
+        wgt = np.exp(g - g.max())
+        wgt = (wgt / wgt.sum() / surf["yield"]).ravel()
+        out.close("FailureKS:failure/vonmises(closed form)", Jk, wgt, rtol=1e-9, scale=float(np.max(wgt)))
+        ks_ref = (g.max() + np.log(np.sum(np.exp(g - g.max())))) / desc["rho"]
+        out.close("FailureKS:failure(closed form)", pk.get_val("failure"), [ks_ref], rtol=1e-12, atol=1e-12)
+        pk.cleanup()
+        # numerical differentiation is added only where its smallest step (1e-6 of the stress level) resolves the curvature
+        # length yield/rho of the aggregate: with 38 equal stresses of 5000 x yield the weights turn from uniform to
+        # max-dominated within 2e-6 of the level, and a difference quotient measures the wrong slope with a small error estimate
+        if desc["rho"] * desc["level"] * 1e-6 / surf["yield"] <= 0.01:
+            n = _judge_alone(out, FailureKS(surface=surf, rho=desc["rho"]), {"vonmises": vm}, rng, min(eps, 1e-3), "FailureKS")
+        else:
+            out.label("ks-closed-form-only")
+            n = 1
     elif w == "atmos":
         from openaerostruct.common.atmos_comp import AtmosComp
 
